@@ -11,6 +11,8 @@ import GfaModel.Components
 import GfaModel.Seq
 import GfaModel.Line
 import GfaModel.Levels
+import GfaModel.Partial
+import GfaModel.Groups
 /- Line protocol of the model driver: `op US arg US arg …` → one reply line. -/
 namespace Gfa
 namespace Driver
@@ -222,6 +224,15 @@ def pure? (cmd : String) (args : List (List Char)) : Option String :=
         s!"ok {p e.b1 nf} {p e.e1 nf} {p e.b2 nt} {p e.e2 nt} | {back}"
       | _, _, _, _, _ => "err")
     | _, _ => "bad-op")
+  | "py.decode", [dt, q] =>
+    some (match dt with
+    | [c] => (match Py.decodeTag c q with | .ok _ => "ok" | .gerr _ => "gerr" | .foreign e => "foreign " ++ e)
+    | _ => if dt = "position_gfa2".toList then
+        (match Py.decodePos q with | .ok _ => "ok" | .gerr _ => "gerr" | .foreign e => "foreign " ++ e) else "bad-op")
+  | "py.line", dts :: l :: [] =>
+    some (match ((Field.splitOn ',' dts).filter (· ≠ [])).mapM (fun d => dtOfName (str d)) with
+    | some ds => (match Py.parseLine ds l with | .ok _ => "ok" | .gerr _ => "gerr" | .foreign e => "foreign " ++ e)
+    | none => "bad-op")
   | "seq.rc", [q] =>
     some (match Seq.rc q with | some r => "ok " ++ str r | none => "gerr ValueError")
   | "seq.spell", members =>
@@ -278,6 +289,8 @@ def step (d : DState) (cmd : String) (args : List (List Char)) : DState × Strin
   | "g.cc", [] =>
     (d, "ok " ++ ";".intercalate (sortStrs ((G.components d.g).map (fun c => ",".intercalate (sortStrs c)))))
   | "g.cc1", [s] => (d, "ok " ++ ",".intercalate (sortStrs (G.component d.g (str s))))
+  | "g.induced", [u] => (d, "ok " ++ ",".intercalate (sortStrs (G.inducedSegments d.g (str u))))
+  | "g.inducedE", [u] => (d, "ok " ++ ";".intercalate (sortStrs ((G.inducedEdges d.g (str u)).map G.Rec.text)))
   | "g.counts", [] =>
     (d, s!"ok dovetails={G.nDovetails d.g} containments={G.nContainments d.g} internals={G.nInternals d.g} dead_ends={G.nDeadEnds d.g}")
   | _, _ =>
